@@ -53,6 +53,12 @@ def make_world(seed, jitter):
                 if ex[k][1] - ex[k][0] + 1 >= 280:
                     d = rng.randint(110, 150)
                     cands.append(("shifted-site", ex[:k] + [(ex[k][0] + d, ex[k][1])] + ex[k + 1:]))
+                # two-exon reads that start inside the last (first) exon of the isoform, follow it to its very end and continue with an intron
+                # and a 300-bp exon lying entirely BEYOND the isoform: no intron of the read matches anything
+                if ex[-1][1] - ex[-1][0] >= 120 and ex[-1][1] + 1300 < w.chrom_len(t.chrom):
+                    cands.append(("extra-exon-beyond-end", [(ex[-1][0] + 30, ex[-1][1]), (ex[-1][1] + 800, ex[-1][1] + 1100)]))
+                if ex[0][1] - ex[0][0] >= 120 and ex[0][0] > 1400:
+                    cands.append(("extra-exon-beyond-end", [(ex[0][0] - 1100, ex[0][0] - 800), (ex[0][0], ex[0][1] - 30)]))
                 if jitter == 0:
                     # preset 'exact' (every splice-site tolerance is 0): ONE site of one intron moved by 20-30 bp, the other site kept; the
                     # intron is long enough for the length change to stay below 20 %
@@ -249,7 +255,7 @@ def run(chk, scratch):
                     chk.violation("only-compatible-isoform-not-unique:%s" % mode, "%s: read %s has %s as its only compatible isoform, reported %s on %s" %
                                   (desc, rd.name, T.id, atype, sorted(reported)[:4]), wit)
             elif cls in ("skipped-exon", "extra-exon", "retained-intron", "shifted-site", "extended-start", "extended-end", "hidden-isoform",
-                         "extended-5prime-with-tail", "retained-terminal-intron", "end-inside-intron") or cls.startswith("site-moved-20-30"):
+                         "extended-5prime-with-tail", "retained-terminal-intron", "end-inside-intron", "extra-exon-beyond-end") or cls.startswith("site-moved-20-30"):
                 if not overl:
                     continue
 
